@@ -1,7 +1,7 @@
 """C11 - tomography of a qubit subset (core clause: selection, order, significance, re-embedding)."""
 from ..rules_flow import Flow, P_rules
 from ..rules_tomo import H1_histogram_accumulates, B1_B2_counts, B3_reembed, W1_W2_builders, W11_fitter_uses_list
-from ..rules_conv import U1_defined_attributes
+from ..rules_conv import U1_defined_attributes, W15_flag_forwarding
 
 
 def run(tree, rep, tier):
@@ -17,6 +17,7 @@ def run(tree, rep, tier):
     W1_W2_builders(rep, flow, want=("W1",))
     W11_fitter_uses_list(rep, flow)
     U1_defined_attributes(rep, flow, ['tomography'])
+    W15_flag_forwarding(rep, flow)
     rep.trusted += ["Q1", "Q5"]
     rep.decided += ["marginalisation selects exactly the listed qubits in the listed order and bit significance (B2)", "readout composed onto the listed qubits in order (P3); the fitter receives the same list and the register width (W1) and marginalises onto exactly that list (W11)",
                     "re-embedding writes factor j at register position q_j (B3)",
